@@ -730,16 +730,21 @@ has_traits_new(PyTypeObject *type, PyObject *args, PyObject *kwds)
     if (obj != NULL) {
         if (type->tp_dict == NULL) {
             PyErr_SetString(PyExc_RuntimeError, "No tp_dict");
+            Py_DECREF(obj);
             return NULL;
         }
         obj->ctrait_dict =
             (PyDictObject *)PyDict_GetItem(type->tp_dict, class_traits);
         if (obj->ctrait_dict == NULL) {
             PyErr_SetString(PyExc_RuntimeError, "No ctrait_dict");
+            Py_DECREF(obj);
             return NULL;
         }
         if (!PyDict_Check((PyObject *)obj->ctrait_dict)) {
             PyErr_SetString(PyExc_RuntimeError, "ctrait_dict not a dict");
+            /* Borrowed, not yet owned: do not let dealloc release it. */
+            obj->ctrait_dict = NULL;
+            Py_DECREF(obj);
             return NULL;
         }
         Py_INCREF(obj->ctrait_dict);
